@@ -1,24 +1,573 @@
+// h14: correspondence harness for C14 (variables resolve by documented precedence).
+//
+// Drives the real code of /repo:
+//   - common/gera: MakeMapWithMap / Wrap / Set / Del / Get / Len / Flattened / FlattenedParent /
+//     WrappedAndFlattened / FlattenStack on generated hierarchies                       (gera, flatstack)
+//   - configuration/template: Sequence.Execute -> VarStack.consolidated -> Fields.Execute on
+//     the field "{{ key }}" at each of the stages                                           (stage)
+//   - core/workflow: a workflow document is unmarshalled and ProcessTemplates runs on it
+//     (hook VerifC14LoadYAML = Load minus repository manager), under a ParentAdapter holding
+//     the environment-wide maps (optionally read through apricot's file backend with
+//     GetDefaults/GetVars as newEnvironment does); SetRuntimeVar/DeleteRuntimeVar at inner
+//     roles; then ConsolidatedVarStack / ConsolidatedVarMaps / own maps at every role        (tree)
+//   - core/task: Task.BuildTaskCommand and Task.BuildPropertyMap on a task (hook
+//     VerifC14NewTask = field initialisation of newTaskForMesosOffer) whose parent is a real
+//     task role at the bottom of a real role chain; the value of "{{ key }}" as command-line
+//     argument and as property                                                               (task)
+//
+// `h14 -gen FILE` enumerates, on the running code, which sources every template stage sees
+// and writes coq/gen/Gen_VarStages.v.
 package main
 
 import (
+	"encoding/json"
 	"fmt"
+	"io"
+	"os"
+	"path/filepath"
 	"sort"
+	"strconv"
+	"strings"
+	texttemplate "text/template"
 
+	"github.com/AliceO2Group/Control/apricot/local"
 	"github.com/AliceO2Group/Control/common"
 	"github.com/AliceO2Group/Control/common/controlmode"
 	"github.com/AliceO2Group/Control/common/event"
 	"github.com/AliceO2Group/Control/common/gera"
 	"github.com/AliceO2Group/Control/common/utils/uid"
+	"github.com/AliceO2Group/Control/configuration/template"
 	"github.com/AliceO2Group/Control/core/repos"
 	"github.com/AliceO2Group/Control/core/task"
 	"github.com/AliceO2Group/Control/core/task/channel"
 	"github.com/AliceO2Group/Control/core/task/sm"
 	"github.com/AliceO2Group/Control/core/task/taskclass"
 	"github.com/AliceO2Group/Control/core/workflow"
+	"github.com/sirupsen/logrus"
 	"github.com/spf13/viper"
+
+	"verif/harness/internal/gen"
 )
 
-type parentRole interface {
+// ---------------------------------------------------------------- inputs (JSON, for replay)
+
+type smap = map[string]string
+
+// hop: Set (Val != nil) or Del on the map at depth Lvl of a hierarchy / on the user vars of the
+// role at Addr.
+type hop struct {
+	Lvl  int     `json:"lvl,omitempty"`
+	Addr []int   `json:"addr,omitempty"`
+	Key  string  `json:"key"`
+	Val  *string `json:"val"`
+}
+
+type tv struct {
+	Ref string `json:"ref,omitempty"` // "{{ ref }}" when non-empty
+	Lit string `json:"lit"`
+}
+
+type roleIn struct {
+	NameRef  string        `json:"name_ref,omitempty"` // name is "n{{ NameRef }}" when set, "r" otherwise
+	Defaults map[string]tv `json:"defaults,omitempty"`
+	Vars     map[string]tv `json:"vars,omitempty"`
+	Children []*roleIn     `json:"children,omitempty"`
+	Leaf     string        `json:"leaf,omitempty"` // task | call (childless roles)
+	IterVar  string        `json:"iter_var,omitempty"`
+	IterVals []string      `json:"iter_vals,omitempty"`
+	Tpl      *roleIn       `json:"tpl,omitempty"`
+}
+
+type lvl struct {
+	D smap `json:"d"`
+	V smap `json:"v"`
+	U smap `json:"u"`
+}
+
+type input struct {
+	// gera
+	H     []smap `json:"h,omitempty"`
+	Ops   []hop  `json:"ops,omitempty"`
+	Other []smap `json:"other,omitempty"`
+	Keys  []string `json:"keys,omitempty"`
+	// flatstack
+	Hs [][]smap `json:"hs,omitempty"`
+	// stage
+	Locals smap   `json:"locals,omitempty"`
+	D      []smap `json:"d,omitempty"`
+	V      []smap `json:"v,omitempty"`
+	U      []smap `json:"u,omitempty"`
+	// tree
+	Env     *lvl    `json:"env,omitempty"`
+	Backend bool    `json:"backend,omitempty"` // environment defaults/vars go through apricot's file backend
+	Tree    *roleIn `json:"tree,omitempty"`
+	// task
+	Path []lvl         `json:"path,omitempty"` // leaf role first, environment last
+	CD   map[string]tv `json:"class_defaults,omitempty"`
+	CV   map[string]tv `json:"class_vars,omitempty"`
+}
+
+// ---------------------------------------------------------------- Coq printers
+
+func sortedKeys[T any](m map[string]T) []string {
+	ks := make([]string, 0, len(m))
+	for k := range m {
+		ks = append(ks, k)
+	}
+	sort.Strings(ks)
+	return ks
+}
+
+func hierTerm(h []smap) string {
+	it := make([]string, len(h))
+	for i, m := range h {
+		it[i] = gen.KVs(m)
+	}
+	return gen.List(it)
+}
+
+func optStr(s *string) string {
+	if s == nil {
+		return gen.None()
+	}
+	return gen.Some(gen.Str(*s))
+}
+
+func optList(l []*string) string {
+	it := make([]string, len(l))
+	for i, s := range l {
+		it[i] = optStr(s)
+	}
+	return gen.List(it)
+}
+
+func mopTerm(o hop) string {
+	if o.Val == nil {
+		return "MDel " + gen.Str(o.Key)
+	}
+	return "MSet " + gen.Str(o.Key) + " " + gen.Str(*o.Val)
+}
+
+func tvTerm(v tv) string {
+	if v.Ref != "" {
+		return "VRef " + gen.Str(v.Ref)
+	}
+	return "VLit " + gen.Str(v.Lit)
+}
+
+func rmapTerm(m map[string]tv) string {
+	ks := sortedKeys(m)
+	it := make([]string, len(ks))
+	for i, k := range ks {
+		it[i] = gen.Pair(gen.Str(k), tvTerm(m[k]))
+	}
+	return gen.List(it)
+}
+
+func lvlTerm(l lvl) string {
+	return fmt.Sprintf("(mkLevel %s %s %s)", gen.KVs(l.D), gen.KVs(l.V), gen.KVs(l.U))
+}
+
+func roleTerm(r *roleIn) string {
+	if r.Tpl != nil {
+		return fmt.Sprintf("(RIter %s %s %s)", gen.Str(r.IterVar), gen.StrList(r.IterVals), roleTerm(r.Tpl))
+	}
+	nm := gen.None()
+	if r.NameRef != "" {
+		nm = gen.Some(gen.Str(r.NameRef))
+	}
+	ch := make([]string, len(r.Children))
+	for i, c := range r.Children {
+		ch[i] = roleTerm(c)
+	}
+	return fmt.Sprintf("(RRole %s %s %s %s)", nm, rmapTerm(r.Defaults), rmapTerm(r.Vars), gen.List(ch))
+}
+
+func nlist(a []int) string {
+	it := make([]string, len(a))
+	for i, x := range a {
+		it[i] = strconv.Itoa(x)
+	}
+	return gen.List(it)
+}
+
+// ---------------------------------------------------------------- gera level
+
+func buildHier(h []smap) []*gera.WrapMap[string, string] {
+	ws := make([]*gera.WrapMap[string, string], len(h))
+	for i := range h {
+		ws[i] = gera.MakeMapWithMapCopy(h[i])
+	}
+	for i := 0; i+1 < len(ws); i++ {
+		ws[i].Wrap(ws[i+1])
+	}
+	return ws
+}
+
+func must(m smap, err error) smap {
+	if err != nil {
+		panic(err)
+	}
+	if m == nil {
+		m = smap{}
+	}
+	return m
+}
+
+func caseGera(in input) gen.Case {
+	ws := buildHier(in.H)
+	for _, o := range in.Ops {
+		if o.Lvl < len(ws) {
+			if o.Val == nil {
+				ws[o.Lvl].Del(o.Key)
+			} else {
+				ws[o.Lvl].Set(o.Key, *o.Val)
+			}
+		}
+	}
+	w := ws[0]
+	flat := must(w.Flattened())
+	flatPar := must(w.FlattenedParent())
+	var other gera.Map[string, string]
+	if len(in.Other) > 0 {
+		other = buildHier(in.Other)[0]
+	}
+	var waf smap
+	if other == nil {
+		waf = must(w.WrappedAndFlattened(nil))
+	} else {
+		waf = must(w.WrappedAndFlattened(other))
+	}
+	gets := make([]*string, len(in.Keys))
+	for i, k := range in.Keys {
+		if v, ok := w.Get(k); ok {
+			vv := v
+			gets[i] = &vv
+			if !w.Has(k) {
+				panic("Has disagrees with Get")
+			}
+		} else if w.Has(k) {
+			panic("Has disagrees with Get")
+		}
+	}
+	ln := w.Len()
+	ops := make([]string, len(in.Ops))
+	for i, o := range in.Ops {
+		ops[i] = gen.Pair(strconv.Itoa(o.Lvl), mopTerm(o))
+	}
+	term := fmt.Sprintf("CGera %s %s %s %s %s %s %s %s %d", hierTerm(in.H), gen.List(ops), hierTerm(in.Other),
+		gen.StrList(in.Keys), gen.KVs(flat), gen.KVs(flatPar), gen.KVs(waf), optList(gets), ln)
+	return gen.Case{Term: term, Kind: "gera", Input: in,
+		Obs: map[string]any{"flattened": flat, "flattened_parent": flatPar, "wrapped_and_flattened": waf, "get": gets, "len": ln}}
+}
+
+func caseFlatStack(in input) gen.Case {
+	var ms []gera.Map[string, string]
+	for _, h := range in.Hs {
+		ms = append(ms, buildHier(h)[0])
+	}
+	o := must(gera.FlattenStack(ms...))
+	it := make([]string, len(in.Hs))
+	for i, h := range in.Hs {
+		it[i] = hierTerm(h)
+	}
+	return gen.Case{Term: fmt.Sprintf("CFlatStack %s %s", gen.List(it), gen.KVs(o)), Kind: "flatstack", Input: in, Obs: o}
+}
+
+// ---------------------------------------------------------------- template stages
+
+const nStages = 6
+
+// stageValue runs the real Sequence.Execute with the single field "{{ key }}" at one stage.
+func stageValue(vs template.VarStack, stage int, key string) (val *string, ran bool) {
+	s := "{{ " + key + " }}"
+	seq := template.Sequence{template.Stage(stage): template.Fields{template.WrapGeneric(
+		func() string { ran = true; return s },
+		func(v string) { s = v })}}
+	err := seq.Execute(nil, "verif", vs,
+		func(template.Stage) map[string]interface{} { return map[string]interface{}{} },
+		nil, map[string]texttemplate.Template{}, nil, template.NullCallback)
+	if err != nil {
+		return nil, ran
+	}
+	return &s, ran
+}
+
+func mkVarStack(in input) template.VarStack {
+	var locals smap
+	if in.Locals != nil {
+		locals = smap{}
+		for k, v := range in.Locals {
+			locals[k] = v
+		}
+	}
+	return template.VarStack{Locals: locals, Defaults: buildHier(in.D)[0], Vars: buildHier(in.V)[0], UserVars: buildHier(in.U)[0]}
+}
+
+func caseStage(in input) gen.Case {
+	vs := mkVarStack(in)
+	rows := make([]string, nStages)
+	obs := make([][]*string, nStages)
+	for st := 0; st < nStages; st++ {
+		vals := make([]*string, len(in.Keys))
+		for i, k := range in.Keys {
+			vals[i], _ = stageValue(vs, st, k)
+		}
+		obs[st] = vals
+		rows[st] = optList(vals)
+	}
+	term := fmt.Sprintf("CStage %s %s %s %s %s %s", gen.KVs(in.Locals), hierTerm(in.D), hierTerm(in.V), hierTerm(in.U),
+		gen.StrList(in.Keys), gen.List(rows))
+	return gen.Case{Term: term, Kind: "stage", Input: in, Obs: obs}
+}
+
+// genStages: the visibility table of the running code (finite domain: stages x marker sources).
+func genStages(out string) {
+	markers := []string{"od", "ov", "ou", "pd", "pv", "pu", "lo"}
+	in := input{Locals: smap{"lo": "1"},
+		D: []smap{{"od": "1"}, {"pd": "1"}}, V: []smap{{"ov": "1"}, {"pv": "1"}}, U: []smap{{"ou": "1"}, {"pu": "1"}}}
+	vs := mkVarStack(in)
+	count := 0
+	for st := 0; st < 16; st++ {
+		_, ran := stageValue(vs, st, "lo")
+		if ran {
+			if st != count {
+				fmt.Fprintln(os.Stderr, "h14 -gen: executed stages are not a prefix of 0..15")
+				os.Exit(3)
+			}
+			count++
+		}
+	}
+	var b strings.Builder
+	b.WriteString("(* regenerated on every run by `h14 -gen` from the running code of\n   configuration/template/fields.go (Sequence.Execute / VarStack.consolidated):\n   for every executed stage, which of the sources\n   [own defaults; own vars; own user vars; parent defaults; parent vars; parent user vars; locals]\n   a field of that stage can see *)\n")
+	b.WriteString("From Verif Require Import Common.\nOpen Scope N_scope.\n")
+	b.WriteString("Definition stage_rows : list (N * list bool) := [\n")
+	for st := 0; st < count; st++ {
+		row := make([]string, len(markers))
+		for i, m := range markers {
+			v, _ := stageValue(vs, st, m)
+			row[i] = gen.Bool(v != nil && *v == "1")
+		}
+		sep := ";"
+		if st == count-1 {
+			sep = ""
+		}
+		fmt.Fprintf(&b, "  (%d, %s)%s\n", st, gen.List(row), sep)
+	}
+	b.WriteString("].\n")
+	fmt.Fprintf(&b, "Definition stage_count : N := %d.\n", count)
+	old, err := os.ReadFile(out)
+	if err == nil && string(old) == b.String() {
+		return
+	}
+	if err := os.WriteFile(out, []byte(b.String()), 0o644); err != nil {
+		fmt.Fprintln(os.Stderr, err)
+		os.Exit(3)
+	}
+}
+
+// ---------------------------------------------------------------- role trees
+
+func tvText(v tv) string {
+	if v.Ref != "" {
+		return "{{ " + v.Ref + " }}"
+	}
+	return v.Lit
+}
+
+func roleDoc(r *roleIn) map[string]any {
+	if r.Tpl != nil {
+		d := roleDoc(r.Tpl)
+		numeric := len(r.IterVals) > 0
+		for i, v := range r.IterVals {
+			n, err := strconv.Atoi(v)
+			if err != nil || strconv.Itoa(n) != v || (i > 0 && func() bool { p, _ := strconv.Atoi(r.IterVals[i-1]); return n != p+1 }()) {
+				numeric = false
+			}
+		}
+		if numeric {
+			d["for"] = map[string]any{"begin": r.IterVals[0], "end": r.IterVals[len(r.IterVals)-1], "var": r.IterVar}
+		} else {
+			j, _ := json.Marshal(r.IterVals)
+			d["for"] = map[string]any{"range": string(j), "var": r.IterVar}
+		}
+		return d
+	}
+	d := map[string]any{}
+	if r.NameRef != "" {
+		d["name"] = "n{{ " + r.NameRef + " }}"
+	} else {
+		d["name"] = "r"
+	}
+	if r.Defaults != nil {
+		m := smap{}
+		for k, v := range r.Defaults {
+			m[k] = tvText(v)
+		}
+		d["defaults"] = m
+	}
+	if r.Vars != nil {
+		m := smap{}
+		for k, v := range r.Vars {
+			m[k] = tvText(v)
+		}
+		d["vars"] = m
+	}
+	switch {
+	case len(r.Children) > 0:
+		var ch []any
+		for _, c := range r.Children {
+			ch = append(ch, roleDoc(c))
+		}
+		d["roles"] = ch
+	case r.Leaf == "call":
+		d["call"] = map[string]any{"func": "verif.Noop()", "trigger": "before_CONFIGURE", "critical": false}
+	default:
+		d["task"] = map[string]any{"load": "cls"}
+	}
+	return d
+}
+
+var nilID = uid.NilID()
+
+func parentAdapter(d, v, u smap) *workflow.ParentAdapter {
+	gd, gv, gu := gera.MakeMapWithMap(d), gera.MakeMapWithMap(v), gera.MakeMapWithMap(u)
+	return workflow.NewParentAdapter(func() uid.ID { return nilID }, func() uint32 { return 0 },
+		func() gera.Map[string, string] { return gd }, func() gera.Map[string, string] { return gv },
+		func() gera.Map[string, string] { return gu }, func(event.Event) {})
+}
+
+func yq(s string) string { b, _ := json.Marshal(s); return string(b) }
+
+// throughBackend stores the environment-wide defaults and vars in a file backend and reads them
+// back with the calls newEnvironment makes (ConfSvc().GetDefaults() / GetVars()).
+func throughBackend(dir string, d, v smap) (smap, smap) {
+	var b strings.Builder
+	b.WriteString("o2:\n  runtime:\n    aliecs:\n")
+	for _, part := range []struct {
+		n string
+		m smap
+	}{{"defaults", d}, {"vars", v}} {
+		b.WriteString("      " + part.n + ":\n")
+		for _, k := range sortedKeys(part.m) {
+			b.WriteString("        " + yq(k) + ": " + yq(part.m[k]) + "\n")
+		}
+		if len(part.m) == 0 {
+			b.WriteString("        zz-unused-subtree: {x: y}\n")
+		}
+	}
+	f := filepath.Join(dir, "env.yaml")
+	if err := os.WriteFile(f, []byte(b.String()), 0o644); err != nil {
+		panic(err)
+	}
+	svc, err := local.NewService("file://" + f)
+	if err != nil {
+		panic(err)
+	}
+	return svc.GetDefaults(), svc.GetVars()
+}
+
+func copyMap(m smap) smap {
+	c := smap{}
+	for k, v := range m {
+		c[k] = v
+	}
+	return c
+}
+
+var dummyRepo repos.Repo
+
+type viewObs struct {
+	Addr  []int  `json:"addr"`
+	Name  string `json:"name"`
+	Own   lvl    `json:"own"`
+	Stack smap   `json:"stack"`
+	Maps  lvl    `json:"maps"`
+}
+
+func roleAt(root workflow.Role, addr []int) workflow.Role {
+	if len(addr) == 0 || addr[0] != 0 {
+		return nil
+	}
+	r := root
+	for _, i := range addr[1:] {
+		ch := r.GetRoles()
+		if i >= len(ch) {
+			return nil
+		}
+		r = ch[i]
+	}
+	return r
+}
+
+func walk(r workflow.Role, addr []int, out *[]viewObs) {
+	st := must(r.ConsolidatedVarStack())
+	d, v, u, err := r.ConsolidatedVarMaps()
+	if err != nil {
+		panic(err)
+	}
+	a := append([]int{}, addr...)
+	*out = append(*out, viewObs{Addr: a, Name: r.GetName(),
+		Own:   lvl{copyMap(r.GetDefaults().Raw()), copyMap(r.GetVars().Raw()), copyMap(r.GetUserVars().Raw())},
+		Stack: st, Maps: lvl{must(d, nil), must(v, nil), must(u, nil)}})
+	for i, c := range r.GetRoles() {
+		walk(c, append(addr, i), out)
+	}
+}
+
+// loadTree returns the loaded root and the effective environment-wide maps (what the
+// configuration service returned when the case goes through the file backend).
+func loadTree(tmp string, in input) (workflow.Role, lvl, error) {
+	env := lvl{copyMap(in.Env.D), copyMap(in.Env.V), copyMap(in.Env.U)}
+	if in.Backend {
+		env.D, env.V = throughBackend(tmp, in.Env.D, in.Env.V)
+	}
+	pa := parentAdapter(copyMap(env.D), copyMap(env.V), copyMap(env.U))
+	doc, err := json.Marshal(roleDoc(in.Tree)) // JSON is YAML
+	if err != nil {
+		panic(err)
+	}
+	root, err := workflow.VerifC14LoadYAML(doc, pa, &dummyRepo, smap{})
+	return root, env, err
+}
+
+func caseTree(tmp string, in input) gen.Case {
+	root, env, err := loadTree(tmp, in)
+	ops := make([]string, len(in.Ops))
+	for i, o := range in.Ops {
+		ops[i] = gen.Pair(nlist(o.Addr), mopTerm(o))
+	}
+	obsTerm := gen.None()
+	var views []viewObs
+	if err == nil {
+		for _, o := range in.Ops {
+			if r := roleAt(root, o.Addr); r != nil {
+				if o.Val == nil {
+					r.DeleteRuntimeVar(o.Key)
+				} else {
+					r.SetRuntimeVar(o.Key, *o.Val)
+				}
+			}
+		}
+		walk(root, []int{0}, &views)
+		it := make([]string, len(views))
+		for i, w := range views {
+			it[i] = fmt.Sprintf("mkView %s %s %s %s %s", nlist(w.Addr), gen.Str(w.Name), lvlTerm(w.Own), gen.KVs(w.Stack), lvlTerm(w.Maps))
+		}
+		obsTerm = gen.Some(gen.List(it))
+	}
+	term := fmt.Sprintf("CTree %s %s %s %s", lvlTerm(env), roleTerm(in.Tree), gen.List(ops), obsTerm)
+	var o any = views
+	if err != nil {
+		o = "load failed"
+	}
+	return gen.Case{Term: term, Kind: "tree", Input: in, Obs: o}
+}
+
+// ---------------------------------------------------------------- task level
+
+// the method set of core/task's unexported parentRole interface
+type taskParent interface {
 	UpdateStatus(task.Status)
 	UpdateState(sm.State)
 	GetPath() string
@@ -36,93 +585,356 @@ type parentRole interface {
 	GetName() string
 }
 
-func dump(m map[string]string) string {
-	ks := []string{}
-	for k := range m {
-		ks = append(ks, k)
+func litMap(m smap) map[string]tv {
+	r := map[string]tv{}
+	for k, v := range m {
+		r[k] = tv{Lit: v}
 	}
-	sort.Strings(ks)
-	s := ""
-	for _, k := range ks {
-		s += fmt.Sprintf("%s=%q ", k, m[k])
-	}
-	return s
+	return r
 }
 
-func walk(r workflow.Role, ind string) {
-	if false {
-		fmt.Println(ind + "(iterator)")
-	} else {
-		cvs, err := r.ConsolidatedVarStack()
-		d, v, u, _ := r.ConsolidatedVarMaps()
-		fmt.Printf("%s%s path=%s stack{%s} D{%s} V{%s} U{%s} err=%v ownD{%s} ownV{%s}\n", ind, r.GetName(), r.GetPath(), dump(cvs), dump(d), dump(v), dump(u), err, dump(r.GetDefaults().Raw()), dump(r.GetVars().Raw()))
+func rawOf(m map[string]tv) smap {
+	r := smap{}
+	for k, v := range m {
+		r[k] = tvText(v)
 	}
-	for _, c := range r.GetRoles() {
-		walk(c, ind+"  ")
+	return r
+}
+
+func caseTask(tmp string, in input) gen.Case {
+	n := len(in.Path)
+	if n < 3 {
+		panic("task case needs a task role, at least one aggregator and the environment")
 	}
+	// a chain of real roles: Path[n-2] is the root, Path[0] the task role, Path[n-1] the environment
+	var node *roleIn
+	for i := 0; i <= n-2; i++ {
+		r := &roleIn{Defaults: litMap(in.Path[i].D), Vars: litMap(in.Path[i].V)}
+		if node == nil {
+			r.Leaf = "task"
+		} else {
+			r.Children = []*roleIn{node}
+		}
+		node = r
+	}
+	env := in.Path[n-1]
+	root, _, err := loadTree(tmp, input{Env: &env, Tree: node})
+	if err != nil {
+		panic(err)
+	}
+	r := root
+	for i := n - 2; i >= 0; i-- {
+		for k, v := range in.Path[i].U {
+			r.SetRuntimeVar(k, v)
+		}
+		if i > 0 {
+			r = r.GetRoles()[0]
+		}
+	}
+	pr := r.(taskParent)
+	mkTask := func(key string) *task.Task {
+		val, user := "cmd", "usr"
+		cls := &taskclass.Class{
+			Identifier: taskclass.Id{RepoIdentifier: "repo", Hash: "hash", Name: "cls"},
+			Defaults:   gera.MakeMapWithMap(rawOf(in.CD)),
+			Vars:       gera.MakeMapWithMap(rawOf(in.CV)),
+			Command:    &common.CommandInfo{Value: &val, User: &user, Arguments: []string{"{{ " + key + " }}"}},
+			Properties: gera.MakeMapWithMap(smap{"p": "{{ " + key + " }}"}),
+		}
+		cls.Control.Mode = controlmode.DIRECT
+		return task.VerifC14NewTask("cls#tid", "tid", "host", cls, pr)
+	}
+	t0 := mkTask("task_id")
+	special := smap{"task_name": t0.GetName(), "task_id": t0.GetTaskId(), "task_class_name": t0.GetClassName(),
+		"task_hostname": t0.GetHostname(), "environment_id": pr.GetEnvironmentId().String(), "task_parent_role": pr.GetPath()}
+	cmd := make([]*string, len(in.Keys))
+	prop := make([]*string, len(in.Keys))
+	for i, k := range in.Keys {
+		t := mkTask(k)
+		if err := t.BuildTaskCommand(pr); err == nil {
+			if ci := t.GetTaskCommandInfo(); ci != nil && len(ci.Arguments) > 0 {
+				v := ci.Arguments[0]
+				cmd[i] = &v
+			}
+		}
+		if pm, err := t.BuildPropertyMap(nil); err == nil {
+			if v, ok := pm["p"]; ok {
+				prop[i] = &v
+			}
+		}
+	}
+	path := make([]string, n)
+	for i, l := range in.Path {
+		path[i] = lvlTerm(l)
+	}
+	term := fmt.Sprintf("CTask %s %s %s %s %s %s %s", gen.List(path), gen.KVs(special), rmapTerm(in.CD), rmapTerm(in.CV),
+		gen.StrList(in.Keys), optList(cmd), optList(prop))
+	return gen.Case{Term: term, Kind: "task", Input: in, Obs: map[string]any{"special": special, "cmd": cmd, "prop": prop}}
+}
+
+// ---------------------------------------------------------------- generators
+
+var alphabet = []string{"a", "b", "c", "d"}
+var values = []string{"", "", "x", "y", "z", "1"}
+
+func genMap(r *gen.Rand, num, den int) smap {
+	m := smap{}
+	for _, k := range alphabet {
+		if r.Chance(num, den) {
+			m[k] = r.Pick(values)
+		}
+	}
+	return m
+}
+
+func genHier(r *gen.Rand, lo, hi int) []smap {
+	n := r.Range(lo, hi)
+	h := make([]smap, n)
+	for i := range h {
+		h[i] = genMap(r, 2, 5)
+	}
+	return h
+}
+
+func sp(s string) *string { return &s }
+
+func genGera(r *gen.Rand) input {
+	in := input{H: genHier(r, 1, 6), Keys: append([]string{}, alphabet...)}
+	if r.Chance(2, 3) {
+		in.Other = genHier(r, 1, 3)
+	}
+	for k := r.Intn(4); k > 0; k-- {
+		o := hop{Lvl: r.Intn(len(in.H)), Key: r.Pick(alphabet)}
+		if r.Chance(2, 3) {
+			o.Val = sp(r.Pick(values))
+		}
+		in.Ops = append(in.Ops, o)
+	}
+	if r.Chance(1, 5) {
+		in.Keys = append(in.Keys, "zz")
+	}
+	return in
+}
+
+func genStage(r *gen.Rand) input {
+	in := input{D: genHier(r, 1, 4), V: genHier(r, 1, 4), U: genHier(r, 1, 4), Keys: append([]string{}, alphabet...)}
+	if r.Chance(3, 4) {
+		in.Locals = genMap(r, 1, 4)
+	}
+	return in
+}
+
+func genRmap(r *gen.Rand, num, den int, refNum int) map[string]tv {
+	m := map[string]tv{}
+	for _, k := range alphabet {
+		if r.Chance(num, den) {
+			if r.Chance(refNum, 10) {
+				m[k] = tv{Ref: r.Pick(alphabet)}
+			} else {
+				m[k] = tv{Lit: r.Pick(values)}
+			}
+		}
+	}
+	return m
+}
+
+func genRole(r *gen.Rand, depth, maxDepth int, budget *int) *roleIn {
+	*budget--
+	ro := &roleIn{Defaults: genRmap(r, 1, 3, 2), Vars: genRmap(r, 1, 3, 2)}
+	if r.Chance(1, 4) {
+		ro.NameRef = r.Pick(alphabet)
+	}
+	if depth < maxDepth && *budget > 0 {
+		n := 1
+		if r.Chance(1, 3) {
+			n = r.Range(2, 3)
+		}
+		for i := 0; i < n && *budget > 0; i++ {
+			c := genRole(r, depth+1, maxDepth, budget)
+			if r.Chance(1, 5) {
+				it := &roleIn{Tpl: c, IterVar: "i"}
+				if r.Chance(1, 2) {
+					it.IterVar = r.Pick(alphabet) // the iterator variable collides with a key
+				}
+				if r.Chance(1, 2) {
+					it.IterVals = []string{"0", "1"}[:r.Range(1, 2)]
+				} else {
+					it.IterVals = []string{r.Pick(values), r.Pick(values)}[:r.Range(1, 2)]
+				}
+				if c.NameRef == "" && r.Chance(1, 2) {
+					c.NameRef = it.IterVar
+				}
+				*budget -= len(it.IterVals) - 1
+				c = it
+			}
+			ro.Children = append(ro.Children, c)
+		}
+	}
+	if len(ro.Children) == 0 {
+		ro.Leaf = r.Pick([]string{"task", "call"})
+	}
+	return ro
+}
+
+func countRoles(root workflow.Role) (addrs [][]int) {
+	var rec func(r workflow.Role, a []int)
+	rec = func(r workflow.Role, a []int) {
+		addrs = append(addrs, append([]int{}, a...))
+		for i, c := range r.GetRoles() {
+			rec(c, append(a, i))
+		}
+	}
+	rec(root, []int{0})
+	return
+}
+
+func genTree(r *gen.Rand, tmp string) input {
+	in := input{Env: &lvl{D: genMap(r, 1, 3), V: genMap(r, 1, 4), U: genMap(r, 1, 4)}}
+	if r.Chance(7, 10) { // mostly every key has an outermost default, so references resolve
+		for _, k := range alphabet {
+			if _, ok := in.Env.D[k]; !ok {
+				in.Env.D[k] = r.Pick(values)
+			}
+		}
+	}
+	in.Backend = r.Chance(1, 4)
+	budget := r.Range(3, 14)
+	in.Tree = genRole(r, 1, r.Range(2, 6), &budget)
+	// runtime variables at roles of the loaded tree (addresses taken from a trial load)
+	if root, _, err := loadTree(tmp, in); err == nil {
+		addrs := countRoles(root)
+		for k := r.Intn(6); k > 0; k-- {
+			o := hop{Addr: addrs[r.Intn(len(addrs))], Key: r.Pick(alphabet)}
+			if r.Chance(4, 5) {
+				o.Val = sp(r.Pick(values))
+			}
+			in.Ops = append(in.Ops, o)
+		}
+	}
+	return in
+}
+
+func genTask(r *gen.Rand) input {
+	n := r.Range(3, 7) // task role, 1..5 aggregators, environment
+	in := input{Keys: append(append([]string{}, alphabet...), "task_id", "zz")}
+	for i := 0; i < n; i++ {
+		in.Path = append(in.Path, lvl{D: genMap(r, 1, 4), V: genMap(r, 1, 5), U: genMap(r, 1, 6)})
+	}
+	if r.Chance(1, 6) {
+		in.Path[r.Intn(n)].V["task_id"] = "w"
+	}
+	in.CD = genRmap(r, 1, 2, 2)
+	in.CV = genRmap(r, 1, 2, 2)
+	if r.Chance(1, 6) {
+		in.CV["task_id"] = tv{Lit: "c"}
+	}
+	if r.Chance(1, 3) { // sparse workflow: the class maps decide
+		for i := range in.Path {
+			in.Path[i] = lvl{D: genMap(r, 1, 12), V: smap{}, U: smap{}}
+		}
+	}
+	return in
+}
+
+// corpus: fixed cases that always run first
+func corpus() []struct {
+	kind string
+	in   input
+} {
+	e := smap{}
+	return []struct {
+		kind string
+		in   input
+	}{
+		// C14-a witness: key only in the class defaults and the class vars
+		{"task", input{Path: []lvl{{e, e, e}, {e, e, e}, {e, e, e}}, CD: map[string]tv{"a": {Lit: "x"}}, CV: map[string]tv{"a": {Lit: "y"}}, Keys: []string{"a"}}},
+		// empty value at the nearest level hides a non-empty ancestor value, in every kind
+		{"task", input{Path: []lvl{{smap{"a": ""}, e, e}, {smap{"a": "x"}, e, e}, {smap{"a": "y", "b": "z"}, e, e}}, CD: map[string]tv{"a": {Lit: "y"}}, CV: map[string]tv{}, Keys: []string{"a", "b"}}},
+		{"gera", input{H: []smap{{"a": ""}, {"a": "x", "b": "y"}, {"b": "", "c": "z"}}, Other: []smap{{"c": ""}, {"d": "1"}}, Keys: []string{"a", "b", "c", "d"}}},
+		{"stage", input{Locals: smap{"d": ""}, D: []smap{{"a": "x"}, {"a": "y", "d": "z"}}, V: []smap{{"b": "x"}, {"b": ""}}, U: []smap{{"c": ""}, {"c": "y"}}, Keys: []string{"a", "b", "c", "d"}}},
+		{"tree", input{Env: &lvl{D: smap{"a": "x", "b": "y"}, V: smap{"c": ""}, U: smap{"d": "1"}},
+			Tree: &roleIn{Defaults: map[string]tv{"a": {Lit: ""}, "d": {Ref: "a"}}, Vars: map[string]tv{"b": {Ref: "a"}},
+				Children: []*roleIn{{Tpl: &roleIn{NameRef: "i", Vars: map[string]tv{"c": {Ref: "i"}}, Leaf: "task"}, IterVar: "i", IterVals: []string{"0", "1"}},
+					{Leaf: "call", Defaults: map[string]tv{"c": {Lit: "z"}}}}},
+			Ops: []hop{{Addr: []int{0, 0}, Key: "c", Val: sp("")}, {Addr: []int{0}, Key: "b", Val: sp("1")}}}},
+	}
+}
+
+func runCase(tmp, kind string, in input) gen.Case {
+	switch kind {
+	case "gera":
+		return caseGera(in)
+	case "flatstack":
+		return caseFlatStack(in)
+	case "stage":
+		return caseStage(in)
+	case "tree":
+		return caseTree(tmp, in)
+	case "task":
+		return caseTask(tmp, in)
+	}
+	panic("unknown kind " + kind)
 }
 
 func main() {
+	logrus.SetOutput(io.Discard)
+	logrus.SetLevel(logrus.PanicLevel)
 	viper.Set("config_endpoint", "mock://")
-	doc := `
-name: root
-defaults:
-  a: "rootA"
-  b: ""
-  e: "{{ g }}"
-vars:
-  c: "{{ a }}"
-roles:
-  - name: "agg-{{ c }}"
-    defaults:
-      a: ""
-      d: "{{ a }}"
-    vars:
-      b: "{{ a }}"
-    roles:
-      - name: "t{{ it }}"
-        for:
-          begin: 0
-          end: 1
-          var: it
-        vars:
-          a: "{{ it }}"
-          it: "own"
-        task:
-          load: cls
-      - name: call1
-        call:
-          func: foo()
-          trigger: before_CONFIGURE
-`
-	gd := gera.MakeMapWithMap(map[string]string{"g": "globalD", "a": "gA"})
-	gv := gera.MakeMapWithMap(map[string]string{})
-	gu := gera.MakeMapWithMap(map[string]string{"u": "user", "it": "userit"})
-	pa := workflow.NewParentAdapter(func() uid.ID { return uid.NilID() }, func() uint32 { return 0 },
-		func() gera.Map[string, string] { return gd }, func() gera.Map[string, string] { return gv }, func() gera.Map[string, string] { return gu },
-		func(event.Event) {})
-	_, repo, _ := repos.NewRepo("/home/user/git/ControlWorkflows", "", "/var/lib/o2/aliecs/repos")
-	root, err := workflow.VerifC14LoadYAML([]byte(doc), pa, &repo, map[string]string{})
-	fmt.Println("err", err)
-	if err != nil {
+	_, dummyRepo, _ = repos.NewRepo("/home/user/git/ControlWorkflows", "", "/var/lib/o2/aliecs/repos")
+	if len(os.Args) >= 3 && os.Args[1] == "-gen" {
+		genStages(os.Args[2])
 		return
 	}
-	walk(root, "")
-	// task level
-	var tr workflow.Role = root.GetRoles()[0].GetRoles()[0]
-	pr := tr.(parentRole)
-	val := "echo"
-	cls := &taskclass.Class{
-		Identifier: taskclass.Id{RepoIdentifier: "r", Hash: "h", Name: "cls"},
-		Defaults:   gera.MakeMapWithMap(map[string]string{"k": "classDefault", "z": "{{ a }}"}),
-		Vars:       gera.MakeMapWithMap(map[string]string{"k": "classVar", "y": "{{ z }}"}),
-		Command:    &common.CommandInfo{Value: &val, Arguments: []string{"{{ k }}", "{{ a }}", "{{ y }}", "{{ task_name }}"}},
-		Properties: gera.MakeMapWithMap(map[string]string{"pk": "{{ k }}", "pa": "{{ a }}", "py": "{{ y }}"}),
+	o := gen.ParseFlags()
+	tmp, err := os.MkdirTemp(o.Out, "backend")
+	if err != nil {
+		panic(err)
 	}
-	cls.Control.Mode = controlmode.DIRECT
-	t := task.VerifC14NewTask("cls#1", "1", "host", cls, pr)
-	err = t.BuildTaskCommand(pr)
-	fmt.Println("cmd err", err, t.GetTaskCommandInfo().Arguments)
-	pm, err := t.BuildPropertyMap(nil)
-	fmt.Println("prop err", err, dump(pm))
+	defer os.RemoveAll(tmp)
+
+	var cases []gen.Case
+	if o.Replay != "" {
+		ins, kinds, err := gen.LoadReplay(o.Replay)
+		if err != nil {
+			panic(err)
+		}
+		for i, raw := range ins {
+			var in input
+			if err := json.Unmarshal(raw, &in); err != nil {
+				panic(err)
+			}
+			cases = append(cases, runCase(tmp, kinds[i], in))
+		}
+	} else {
+		for _, c := range corpus() {
+			cases = append(cases, runCase(tmp, c.kind, c.in))
+		}
+		r := gen.NewRand(o.Seed)
+		rG, rF, rS, rT, rK := r.Fork(), r.Fork(), r.Fork(), r.Fork(), r.Fork()
+		nG, nF, nS, nK := o.N*20/100, o.N*5/100, o.N*15/100, o.N*25/100
+		nT := o.N - nG - nF - nS - nK
+		for i := 0; i < nG; i++ {
+			cases = append(cases, caseGera(genGera(rG)))
+		}
+		for i := 0; i < nF; i++ {
+			n := rF.Range(1, 4)
+			in := input{}
+			for j := 0; j < n; j++ {
+				in.Hs = append(in.Hs, genHier(rF, 1, 3))
+			}
+			cases = append(cases, caseFlatStack(in))
+		}
+		for i := 0; i < nS; i++ {
+			cases = append(cases, caseStage(genStage(rS)))
+		}
+		for i := 0; i < nT; i++ {
+			cases = append(cases, caseTree(tmp, genTree(rT, tmp)))
+		}
+		for i := 0; i < nK; i++ {
+			cases = append(cases, caseTask(tmp, genTask(rK)))
+		}
+	}
+	if err := gen.WriteCases(o, "C14", "From Verif Require Import VarStack.", "c14_case", "report14", cases, nil); err != nil {
+		panic(err)
+	}
 }
